@@ -319,7 +319,7 @@ func (tc *TrCtx) tr0(e Expr) TVal {
 		if g, ok := tc.st.ghosts[e.Name]; ok {
 			return g
 		}
-		if tc.locals != nil && !tc.inOld {
+		if tc.locals != nil {
 			if v, ok := tc.locals(e.Name); ok {
 				return v
 			}
